@@ -24,6 +24,7 @@ mod c12;
 mod c15;
 mod c14;
 mod c13;
+mod fileleg;
 
 use std::collections::BTreeMap;
 use std::time::Instant;
